@@ -3,16 +3,16 @@ CONSTANTS
   Names = {"a", "b"}
   Vals = {"1"}
   AddParents = {"", "a"}
-  TreeKeys = {"a.b", "b"}
-  SetKeys = {"a", "a.b"}
+  TreeKeys = {"a.b"}
+  SetKeys = {"a.b"}
   Keys = {"a", "b", "a.a", "a.b", "b.a", "a.b.a"}
   Filters = {"*", "a", "a.*", "*.b", "?", "a*.b*", "*.*.*"}
   DelParents = {"", "a"}
   CopySrc = {"a"}
-  CopyDst = {"", "a", "b"}
+  CopyDst = {""}
   AttrNodes = {"a"}
   AttrKeys = {"k"}
-  MaxNodes = 10
+  MaxNodes = 8
   Depth = 4
   Emit = TRUE
 INVARIANTS WF LastWins SelectGet SelectAll AttrFunctional Post Leaf
